@@ -202,7 +202,8 @@ DiagThorough == DiagQuick \cup {<<1, 1, 1, 1>>, <<1, 4, 2, 6>>, <<9, 7, 8, 6>>}
 (* profiles around which small off-diagonal sets land EXACTLY on a domain boundary:          *)
 (* AAGGCCTT / GAGACCTT (TN93 purine term), AGCT / CGAT (TN93 transversion term),              *)
 (* two equal rows (determinant 0), p = 3/4 (JC69)                                             *)
-DiagBoundary == {<<1, 2, 1, 2>>, <<2, 1, 2, 1>>, <<0, 0, 1, 1>>, <<1, 1, 1, 1>>, <<2, 0, 0, 0>>, <<2, 2, 2, 2>>}
+DiagBoundary == {<<1, 2, 1, 2>>, <<2, 1, 2, 1>>, <<0, 0, 1, 1>>, <<1, 1, 1, 1>>, <<2, 0, 0, 0>>, <<2, 2, 2, 2>>,
+                 <<1, 3, 1, 3>>, <<3, 1, 3, 1>>}    \* the last two: 1 - 3/4 - 1/4 etc. round to a few ulp above 0 in floating point
 NCNone == {<<>>}
 NCSome == {<<>>, <<<<"N", "A">>, <<"C", "-">>, <<"R", "G">>, <<"-", "-">>, <<"T", "R">>, <<"N", "N">>>>}
 
